@@ -142,9 +142,9 @@ Proof.
   intros HM. induction orc as [|o orc IH]; intros s st s' rest us H Hi Hn; rewrite cloop_eq in H; unfold cloop_body in H;
   destruct (qeq tMax (tStateC s)) eqn:Eq; try discriminate.
   - destruct (after_cstep c report sched tMax (set_adv s tMax (c_pending s) tMax) CSuccess tMax false) eqn:E; try discriminate.
-    inversion H; subst. eapply after_cstep_nonroot; eauto; simpl; auto; try reflexivity; discriminate.
+    inversion H; subst. eapply after_cstep_nonroot; [reflexivity| | | |exact E]; simpl; auto; try reflexivity; discriminate.
   - destruct (after_cstep c report sched tMax (set_adv s tMax (c_pending s) tMax) CSuccess tMax false) eqn:E; try discriminate.
-    inversion H; subst. eapply after_cstep_nonroot; eauto; simpl; auto; try reflexivity; discriminate.
+    inversion H; subst. eapply after_cstep_nonroot; [reflexivity| | | |exact E]; simpl; auto; try reflexivity; discriminate.
   - cbv zeta in H. inversion Hn as [|o' l' Hn1 Hn2]; subst. unfold nonroot in Hn1.
     match type of H with context[after_cstep ?a ?b ?cc ?d ?e ?f ?g ?h] => destruct (after_cstep a b cc d e f g h) eqn:E end; try discriminate.
     + inversion H; subst. eapply after_cstep_nonroot; [reflexivity| | | |exact E].
